@@ -34,7 +34,7 @@ type storMix struct {
 }
 
 var storMixes = map[string]storMix{
-	"proofs":   {postPlan: 10, postOnce: 4, del: 1, buy: 3, badProof: 25, newcomerBad: 20, attest: 3, report: 1, param: 1, bank: 1, maxFiles: 4, provider: 30},
+	"proofs":   {postPlan: 10, postOnce: 4, del: 1, buy: 3, badProof: 25, newcomerBad: 20, attest: 14, report: 1, param: 1, bank: 1, maxFiles: 4, provider: 30},
 	"rewards":  {postPlan: 12, postOnce: 3, del: 1, buy: 4, badProof: 2, newcomerBad: 2, attest: 0, report: 0, param: 0, bank: 1, maxFiles: 5, provider: 20},
 	"usage":    {postPlan: 30, postOnce: 8, del: 14, buy: 10, badProof: 0, newcomerBad: 0, attest: 0, report: 0, param: 0, bank: 1, repostSameBlock: 6, maxFiles: 6, provider: 0},
 	"gauges":   {postPlan: 4, postOnce: 14, del: 0, buy: 16, badProof: 0, newcomerBad: 0, attest: 0, report: 0, param: 0, bank: 0, maxFiles: 4, provider: 0},
@@ -52,6 +52,9 @@ func (g *genStorage) Config(rng *Rng, tier string) Config {
 	}
 	if g.profile == "rewards" && np < 3 {
 		np = 3
+	}
+	if g.profile == "gauges" {
+		nu = 3 // three distinct buyers for equal purchases in one block
 	}
 	c.NAccts = 1 + nu + np + 2
 	for i := 0; i < nu; i++ {
@@ -165,7 +168,7 @@ func (g *genStorage) Block(w *World, b int) Block {
 				if g.profile == "attest" {
 					dom = rng.Intn(len(g.provers))
 				}
-				add(txStep(mkOp("init_provider", p).withS("ip", fmt.Sprintf("https://node%d.dom%d.example", p, dom))))
+				add(txStep(mkOp("init_provider", p).withS("ip", providerHost(rng, p, dom))))
 			}
 		}
 		for _, u := range g.users {
@@ -225,6 +228,13 @@ func (g *genStorage) Block(w *World, b int) Block {
 			}
 			add(txStep(op))
 			add(txStep(op2))
+			if rng.Chance(1, 2) { // a third equal purchase, by the first buyer's neighbour or again by a
+				op3 := mkOp("buy_storage", g.users[len(g.users)-1])
+				for k, v := range op.N {
+					op3.N[k] = v
+				}
+				add(txStep(op3))
+			}
 		} else {
 			f := rng.Intn(g.nFiles)
 			op := g.postOp(rng, a, f, true)
@@ -242,9 +252,9 @@ func (g *genStorage) Block(w *World, b int) Block {
 		case 0, 1:
 			add(txStep(mkOp("shutdown_provider", p)))
 		case 2, 3:
-			add(txStep(mkOp("init_provider", p).withS("ip", fmt.Sprintf("https://node%d.dom%d.example", p, rng.Intn(3)))))
+			add(txStep(mkOp("init_provider", p).withS("ip", providerHost(rng, p, rng.Intn(3)))))
 		case 4:
-			add(txStep(mkOp("set_ip", p).withS("ip", fmt.Sprintf("https://n%d.dom%d.example", p, rng.Intn(3)))))
+			add(txStep(mkOp("set_ip", p).withS("ip", providerHost(rng, p, rng.Intn(3)))))
 		case 5:
 			add(txStep(mkOp("set_space", p).withN("space", rng.Range(0, 1_000_000_000_000))))
 		case 6:
@@ -340,6 +350,25 @@ func (g *genStorage) livePosts(w *World, f int) int {
 		}
 	}
 	return n
+}
+
+// providerHost draws a provider URL in one of the shapes operators really use: sub-domain of a
+// shared domain, bare two-label domain (with and without port), dotted IPv4, single label.
+func providerHost(rng *Rng, p, dom int) string {
+	switch rng.Intn(9) {
+	case 0, 1, 2, 3:
+		return fmt.Sprintf("https://node%d.dom%d.example", p, dom)
+	case 4:
+		return fmt.Sprintf("https://prov%d.io", p)
+	case 5:
+		return fmt.Sprintf("https://dom%d.example:%d", dom, 3000+p)
+	case 6:
+		return fmt.Sprintf("http://10.0.%d.%d:3333", dom, p)
+	case 7:
+		return fmt.Sprintf("https://a.b.node%d.dom%d.example/path", p, dom)
+	default:
+		return fmt.Sprintf("http://host%d", p)
+	}
 }
 
 func (g *genStorage) paramStep(rng *Rng) Step {
